@@ -59,6 +59,16 @@ fn programs(quick: bool) -> Vec<(Program, bool)> {
     for var in [ReadVariant::MultiGet, ReadVariant::MultiGetIterator, ReadVariant::MultiGetMapIterator] {
         v.push((mk(format!("upsert(a);delete(b)||{:?}([a,b])", var), 10, vec![put(1, 2), put(2, 2)], vec![vec![ups_v(1), del(2)], vec![Op::MultiRead { keys: vec![1, 2], variant: var }]]), false));
     }
+    // a value-less upsert between delete(k) returning and the Delete command being executed must not revive the value
+    for (name, op) in [
+        ("weight-only", Op::Upsert { k: 1, value: false, w: Some(3), ttl_ms: None, remove_ttl: false }),
+        ("ttl-only", Op::Upsert { k: 1, value: false, w: None, ttl_ms: Some(5000), remove_ttl: false }),
+        ("remove-ttl", Op::Upsert { k: 1, value: false, w: None, ttl_ms: None, remove_ttl: true }),
+    ] {
+        let mut p = mk(format!("delete(k);upsert(k,{});get(k)||get(k) [worker stopped]", name), 100, vec![put_ttl(1, 30, 9000)], vec![vec![del(1), op, get(1)], vec![get(1)]]);
+        p.frozen = vec![Role::Worker];
+        v.push((p, false));
+    }
     // two writers and a reader
     v.push((mk("upsert(k)||upsert(k)||get(k)".into(), 10, vec![put(1, 2)], vec![vec![ups_v(1)], vec![ups_v(1)], vec![get(1)]]), false));
     // put not yet applied racing a reader and a deleter
@@ -100,6 +110,7 @@ fn agree_spec(ctx: &Ctx) -> SeqSpec {
         oracle: agree_oracle(),
         keys: vec![1, 2, 3],
         canon_sketch: false,
+        ghost_key: None,
         max_states: 2_000_000,
         time_cap_s: if ctx.quick() { 15.0 } else { 300.0 },
     }
